@@ -203,11 +203,21 @@ impl Alpha {
                 " {}[cap {}]=[{}]",
                 self.kind.list_name(i),
                 l.cap,
-                l.ents
-                    .iter()
-                    .map(|e| format!("k{}:v{}", e.ident, e.val))
-                    .collect::<Vec<_>>()
-                    .join(",")
+                {
+                    // long lists: both ends and the length
+                    let f = |e: &Ent| format!("k{}:v{}", e.ident, e.val);
+                    if l.ents.len() > 24 {
+                        let n = l.ents.len();
+                        format!(
+                            "{},..({} more)..,{}",
+                            l.ents[..8].iter().map(f).collect::<Vec<_>>().join(","),
+                            n - 16,
+                            l.ents[n - 8..].iter().map(f).collect::<Vec<_>>().join(",")
+                        )
+                    } else {
+                        l.ents.iter().map(f).collect::<Vec<_>>().join(",")
+                    }
+                }
             ));
         }
         if let Some(e) = &self.est {
@@ -282,7 +292,9 @@ pub fn snap_list<K: SimKey, E: caches::OnEvictCallback, S: std::hash::BuildHashe
             d, rep.node_size
         ));
     }
-    let in_forward = |a: usize| rep.forward.contains(&a);
+    let mut fwd_sorted = rep.forward.clone();
+    fwd_sorted.sort_unstable();
+    let in_forward = |a: usize| fwd_sorted.binary_search(&a).is_ok();
     if !relaxed {
         if !rep.forward_closed {
             problems.push("forward walk from the head sentinel does not reach the tail sentinel".into());
